@@ -25,6 +25,8 @@ import TableauVerif.Spec.C14
 import TableauVerif.Spec.C07
 import TableauVerif.Model.Literal
 import TableauVerif.Spec.C03
+import TableauVerif.Spec.C03Frac
+import TableauVerif.Model.Fraction
 namespace Driver
 open TableauVerif TableauVerif.Model
 
@@ -183,11 +185,36 @@ def decRes? (s : String) : Option Literal.Res :=
   | ["PANIC"] => some (.err 999999)   -- a crash is not an acceptance; the panic itself is C17's business
   | _ => none
 
+def encFRes : Model.Fraction.FRes → String
+  | .ok n d => s!"ok {n} {d}" | .absent => "absent" | .err c => s!"err {c}" | .unmodelled => "unmodelled"
+def encCRes : Model.Fraction.CRes → String
+  | .ok sg n d => s!"ok {sg.number} {n} {d}" | .absent => "absent" | .err c => s!"err {c}" | .unmodelled => "unmodelled"
+def decFRes? (s : String) : Option Model.Fraction.FRes :=
+  match s.splitOn " " with
+  | ["ok", n, d] => do some (.ok (← n.toInt?) (← d.toInt?))
+  | ["absent"] => some .absent
+  | ["err", c] => do some (.err (← c.toNat?))
+  | ["unmodelled"] => some .unmodelled
+  | _ => none
+def decSign? : String → Option Model.Fraction.Sign
+  | "0" => some .eq | "1" => some .ne | "2" => some .lt | "3" => some .le | "4" => some .gt | "5" => some .ge | _ => none
+def decCRes? (s : String) : Option Model.Fraction.CRes :=
+  match s.splitOn " " with
+  | ["ok", sg, n, d] => do some (.ok (← decSign? sg) (← n.toInt?) (← d.toInt?))
+  | ["absent"] => some .absent
+  | ["err", c] => do some (.err (← c.toNat?))
+  | ["unmodelled"] => some .unmodelled
+  | _ => none
+
 def c03 (fn : String) (a : List String) : Option String := do
   match fn, a with
   | "c03.parse", [k, raw] => some (encRes (Literal.parse (← decKind? k) (← decStr? raw)))
   | "o.c03.parse", [k, raw, obs] =>
     some (Spec.C03.holds (← decKind? k) (← decStr? raw) (← decRes? obs)).toString
+  | "c03.frac", [raw] => some (encFRes (Model.Fraction.parseFraction (← decStr? raw)))
+  | "c03.cmp", [raw] => some (encCRes (Model.Fraction.parseComparator (← decStr? raw)))
+  | "o.c03.frac", [raw, obs] => some (Spec.C03.holdsFrac (← decStr? raw) (← decFRes? obs)).toString
+  | "o.c03.cmp", [raw, obs] => some (Spec.C03.holdsCmp (← decStr? raw) (← decCRes? obs)).toString
   | _, _ => none
 
 /-! ### C13 (patch) -/
